@@ -890,6 +890,15 @@ func checkC11(p *core.Program, r *core.Report) {
 			}
 			for _, b := range f.Blocks {
 				for _, in := range b.Instrs {
+					// a writer bound as a method value (return system.WriteRawTo): whoever gets it writes with it
+					if mc, ok := in.(*ssa.MakeClosure); ok {
+						if bf, ok := mc.Fn.(*ssa.Function); ok {
+							if o, _ := bf.Object().(*types.Func); o != nil && writerObjs[o.Origin()] {
+								containsWriter[f] = true
+								return true
+							}
+						}
+					}
 					ci, ok := in.(ssa.CallInstruction)
 					if !ok {
 						continue
@@ -929,6 +938,17 @@ func checkC11(p *core.Program, r *core.Report) {
 					isWriter = true
 				} else if len(sc.Blocks) > 0 && core.InRepo(pkgPathOf(sc)) && hasWriter(sc, 0) {
 					isWriter = true // an in-repo helper that contains a writer call (saveSystem(system, path))
+				}
+				// a writer handed over as a method value (writeToFile(path, system.WriteRawTo, msg)): the call that receives it
+				// is where the system gets written
+				for _, a := range ci.Common().Args {
+					if mc, ok := a.(*ssa.MakeClosure); ok {
+						if bf, ok := mc.Fn.(*ssa.Function); ok {
+							if o, _ := bf.Object().(*types.Func); o != nil && writerObjs[o.Origin()] {
+								isWriter = true
+							}
+						}
+					}
 				}
 				if isWriter {
 					wsites = append(wsites, wsite{b})
